@@ -371,49 +371,6 @@ func TestJ5S(t *testing.T) {
 	})
 }
 
-// crossFile adds a second package whose only message references types of the
-// first file, including an enum referenced only from a field.
-func crossFile(t *rapid.T, first *descriptorpb.FileDescriptorProto, pkg string) *descriptorpb.FileDescriptorProto {
-	fd := &descriptorpb.FileDescriptorProto{
-		Name:       proto.String(strings.ReplaceAll(pkg, ".", "/") + "/cross.proto"),
-		Package:    proto.String(pkg),
-		Syntax:     proto.String("proto3"),
-		Dependency: []string{first.GetName()},
-	}
-	msg := &descriptorpb.DescriptorProto{Name: proto.String("Cross")}
-	n := int32(1)
-	for _, m := range first.MessageType {
-		if rapid.Bool().Draw(t, "crossmsg") {
-			msg.Field = append(msg.Field, &descriptorpb.FieldDescriptorProto{
-				Name: proto.String(fmt.Sprintf("m_%d", n)), JsonName: proto.String(fmt.Sprintf("m%d", n)), Number: proto.Int32(n),
-				Type: descriptorpb.FieldDescriptorProto_TYPE_MESSAGE.Enum(), TypeName: proto.String("." + first.GetPackage() + "." + m.GetName()),
-				Label: descriptorpb.FieldDescriptorProto_LABEL_OPTIONAL.Enum(),
-			})
-			n++
-		}
-	}
-	for _, e := range first.EnumType {
-		label := descriptorpb.FieldDescriptorProto_LABEL_OPTIONAL
-		if rapid.Bool().Draw(t, "crossrep") {
-			label = descriptorpb.FieldDescriptorProto_LABEL_REPEATED
-		}
-		msg.Field = append(msg.Field, &descriptorpb.FieldDescriptorProto{
-			Name: proto.String(fmt.Sprintf("e_%d", n)), JsonName: proto.String(fmt.Sprintf("e%d", n)), Number: proto.Int32(n),
-			Type: descriptorpb.FieldDescriptorProto_TYPE_ENUM.Enum(), TypeName: proto.String("." + first.GetPackage() + "." + e.GetName()),
-			Label: label.Enum(),
-		})
-		n++
-	}
-	// a self-recursive member
-	msg.Field = append(msg.Field, &descriptorpb.FieldDescriptorProto{
-		Name: proto.String("again"), JsonName: proto.String("again"), Number: proto.Int32(n),
-		Type: descriptorpb.FieldDescriptorProto_TYPE_MESSAGE.Enum(), TypeName: proto.String("." + pkg + ".Cross"),
-		Label: descriptorpb.FieldDescriptorProto_LABEL_OPTIONAL.Enum(),
-	})
-	fd.MessageType = []*descriptorpb.DescriptorProto{msg}
-	return fd
-}
-
 func TestRaw(t *testing.T) {
 	r := vf.Start(t, prop, "raw")
 	rapid.Check(t, func(t *rapid.T) {
@@ -427,7 +384,7 @@ func TestRaw(t *testing.T) {
 			if cross == 2 {
 				pkgB = pkgA + ".service" // a sub-package of the first
 			}
-			pbs = append(pbs, crossFile(t, res.File, pkgB))
+			pbs = append(pbs, pgen.CrossFile(t, res.File, pkgB))
 			if cross == 1 {
 				c.Packages = append(c.Packages, pkgB)
 			}
